@@ -13,6 +13,7 @@ import _c04_direct as direct  # noqa: E402
 
 class C04(SchedProp):
     id = 'C04'
+    also = ['C04F']
     props_modules = ['CylcModel.Props.C04']
     theorems = [
         'CylcModel.C04.limitAt_meaning',
